@@ -26,7 +26,7 @@ FLAG_KEYS = ('prio', 'del', 'new', 'unsafe', 'md')
 _SHORT = {('prio', 1): '!force', ('prio', -1): '!weak', ('del', True): '!del', ('del', False): '!merge',
           ('new', True): '!new', ('new', False): '!notnew', ('unsafe', True): '!unsafe'}
 # tags that have a ':'-suffix (metadata) constructor in awesomeyaml/yaml.py
-MD_CAPABLE = ('!metadata', '!xref', '!ref', '!bind:', '!call:', '!eval', '!required', '!null', '!path:', '!clear', '!extend')
+MD_CAPABLE = ('!metadata', '!xref', '!ref', '!bind:', '!call:', '!eval', '!required', '!null', '!path:', '!clear', '!extend', '!import', '!rec')
 
 
 # ------------------------------------------------------------------------------------------ constructors
@@ -49,6 +49,14 @@ def empty(**fl):
 
 def raw(text, tag, q='plain', **fl):
     return {'t': 'raw', 'text': text, 'q': q, 'tag': tag, **fl}
+
+
+def ts(text, **fl):
+    """A plain scalar written verbatim which yaml resolves to something json cannot hold (timestamps: date / datetime)."""
+    return {'t': 'raw', 'text': text, 'q': 'verbatim', 'res': True, **fl}
+
+
+TIMESTAMPS = ['2001-01-02', '2024-02-29', '2001-12-14t21:59:43.10-05:00', '2001-12-14 21:59:43.10', '2002-12-14 21:59:43Z', '1999-1-1 0:0:0']
 
 
 def from_plain(v):
@@ -382,7 +390,7 @@ def plain(n):
     if t == 'empty':
         return None
     if t == 'raw':
-        return n['text']
+        return yaml.safe_load(n['text']) if n.get('res') else n['text']
     if t == 'alias':
         return None
     raise HarnessError(t)
